@@ -593,6 +593,21 @@ func (re *Regexp) GroupNameFromNumber(i int) string {
 	return ""
 }
 
+// groupNameFromSlot is GroupNameFromNumber for a capture slot (an index into Match.Groups and
+// GetGroupNames) rather than a group number; the two differ when group numbers are sparse.
+func (re *Regexp) groupNameFromSlot(slot int) string {
+	if re.capslist == nil {
+		if slot >= 0 && slot < re.capsize {
+			return strconv.Itoa(slot)
+		}
+		return ""
+	}
+	if slot >= 0 && slot < len(re.capslist) {
+		return re.capslist[slot]
+	}
+	return ""
+}
+
 // GroupNumberFromName returns a group number that corresponds to a group name.
 // Returns -1 if the name is not a recognized group name. Numbered groups
 // automatically get a group name that is the decimal string equivalent of its
